@@ -33,6 +33,12 @@ pub struct RxLog {
     pub keepalive_frames: Vec<Vec<u8>>,
     /// (address number, type, ms since start) of REG frames
     pub regs: Vec<(u8, u16, u64)>,
+    /// the REG frames themselves, parallel to `regs`
+    pub reg_frames: Vec<Vec<u8>>,
+    /// the group id the receiver currently holds
+    pub group: Option<[u8; 256]>,
+    /// (ms, id) of every REG2 reply the receiver sent (a group was created)
+    pub groups_created: Vec<(u64, [u8; 256])>,
     /// last source address seen per address number
     pub addr_of: std::collections::BTreeMap<u8, SocketAddr>,
     pub members: Vec<u8>,
@@ -94,6 +100,26 @@ impl E2e {
     }
 
     pub fn start_with(addrs: &[u8], config: DynamicConfig, wait: Duration, policy: RxPolicy) -> Option<E2e> {
+        let e = Self::start_raw(addrs, config, policy)?;
+        // wait for establishment
+        let t0 = Instant::now();
+        loop {
+            let members = e.log.lock().unwrap().members.clone();
+            if addrs.iter().all(|a| members.contains(a)) {
+                break;
+            }
+            if t0.elapsed() > wait || e.sender_ended.load(Ordering::Acquire) {
+                return None;
+            }
+            std::thread::sleep(Duration::from_millis(20));
+        }
+        // let the REG3s land and one keepalive round pass
+        std::thread::sleep(Duration::from_millis(300));
+        Some(e)
+    }
+
+    /// Start the sender and return at once (the handshake itself is under observation).
+    pub fn start_raw(addrs: &[u8], config: DynamicConfig, policy: RxPolicy) -> Option<E2e> {
         let k = SCENARIO.fetch_add(1, Ordering::Relaxed);
         let dir = crate::rt::verif_dir().join("harness").join("target");
         let _ = std::fs::create_dir_all(&dir);
@@ -154,6 +180,7 @@ impl E2e {
                                     }
                                     Some(t @ (rc::T_REG1 | rc::T_REG2)) => {
                                         lg.regs.push((a, t, now));
+                                        lg.reg_frames.push(b.to_vec());
                                         if t == rc::T_REG1 { 2 } else { 3 }
                                     }
                                     _ => {
@@ -176,13 +203,22 @@ impl E2e {
                                 continue;
                             }
                             for r in rx.on_datagram(a, b, now) {
+                                if r.len() == 258 && r[0] == 0x92 && r[1] == 0x01 {
+                                    let mut id = [0u8; 256];
+                                    id.copy_from_slice(&r[2..]);
+                                    log.lock().unwrap().groups_created.push((now, id));
+                                }
                                 if r.len() == 2 && r[0] == 0x92 && r[1] == 0x02 {
                                     arrival += 1;
                                     log.lock().unwrap().order.push((arrival, a, src.port(), 4, now));
                                 }
                                 let _ = sock.send_to(&r, src);
                             }
-                            log.lock().unwrap().members = rx.members.iter().copied().collect();
+                            {
+                                let mut lg = log.lock().unwrap();
+                                lg.members = rx.members.iter().copied().collect();
+                                lg.group = rx.group;
+                            }
                         }
                     }
                     // cumulative SRT ACK keeps in-flight bounded
@@ -250,20 +286,6 @@ impl E2e {
                 let _ = srtla_send::control_socket::spawn(path, cfg, st, cw, hub).await;
             });
         }
-        // wait for establishment
-        let t0 = Instant::now();
-        loop {
-            let members = e.log.lock().unwrap().members.clone();
-            if addrs.iter().all(|a| members.contains(a)) {
-                break;
-            }
-            if t0.elapsed() > wait || e.sender_ended.load(Ordering::Acquire) {
-                return None;
-            }
-            std::thread::sleep(Duration::from_millis(20));
-        }
-        // let the REG3s land and one keepalive round pass
-        std::thread::sleep(Duration::from_millis(300));
         Some(e)
     }
 
